@@ -113,9 +113,15 @@ func genC11Gap(t *rapid.T) C11Scenario {
 	s := C11Scenario{Mem: rapid.Bool().Draw(t, "mem"), Recs: witnessRecs(t, n, "ready")}
 	s.Claimers = []C11Claimer{{Kind: "pe", HowMany: 0, Filter: &Filt{Legs: []Leg{{Field: "status", Op: "ne", S: "done"}}}, Ops: []POp{{Kind: "set-owner", S: "w0"}}, Lease: 900}}
 	m := C11Mutator{Kind: "patch", Keys: allKeys(n), DelayUs: 3000}
-	if rapid.Bool().Draw(t, "slide-expiry") {
+	switch rapid.IntRange(0, 3).Draw(t, "gap-kind") {
+	case 0:
 		m.ExpSec = 1800 // the records are no longer expired when they get patched
-	} else {
+	case 1:
+		m.ClearExp = true // the records never expire any more (Meta.ClearExpiredAt only)
+	case 2:
+		m.ClearExp = true
+		m.Ops = []POp{{Kind: "set-owner", S: "a"}} // … together with a body op that leaves them inside the filter
+	default:
 		m.Ops = []POp{{Kind: "set-status", S: "done"}}
 	}
 	s.Mutators = []C11Mutator{m}
@@ -127,7 +133,7 @@ func TestC11WitnessSelectApplyGap(t *testing.T) {
 	pbt.Witness(t, pbt.Spec[C11Scenario]{
 		ID: "C11", Facet: "witness-patch-expired-select-apply-gap",
 		Rule: "PatchExpired (plain filter status NOT_EQUAL \"done\") has selected 3–8 expired records and is paused before patching the first; a PatchTreasures moves every record out of the " +
-			"filter (status=done) or slides its ExpiredAt into the future (acknowledged); then the per-record patches run",
+			"filter (status=done), slides its ExpiredAt into the future or clears it (Meta.ClearExpiredAt, with or without a body op) — acknowledged; then the per-record patches run",
 		Quick: 12, Thorough: 100, Gen: genC11Gap, Run: runC11,
 	}, "patch-expired-select-apply-gap", "select-apply-gap")
 }
